@@ -32,16 +32,16 @@ CLAIMS = {
     "C12": dict(cat="proof", tech="Kani loop-free contract harnesses over the full domain of every ordered kind pair",
                 text="ConvertScalarToScalarBasic<F,T>::solve for all 144 ordered pairs of the primitive numeric kinds: representable => exactly that value (widen-then-narrow identity), float->int truncates toward zero and clamps, NaN -> 0; oracles avoid the cast under test. Matrix conversion / reshape / unsupported pairs not yet under contract.",
                 note="Trusted: Kani/CBMC bit-precise casts; std TryFrom as integer oracle.", ref="4 C12"),
-    "C13": dict(cat="model_checking", tech="Kani on the based-literal evaluators with symbolic digit tokens",
-                text="Partial: binary/octal/decimal/hex literal evaluators yield exactly the number the digits denote for every token of 1..3 digits. Float/scientific/rational/complex spellings and the grammar are not decided.",
-                note="Assumed: std from_str_radix executed; str::parse::<f64> nearest-value is std's contract; powf not modelled by either verifier.", ref="4 C13"),
     "C14": dict(cat="proof", tech="Kani on the Hash/Eq law of Value with a recording hasher",
                 text="Partial: for every scalar kind, a == b implies identical bytes are fed to the hasher (the law that makes IndexSet<Value> keep distinct elements), full value domain; signed-zero floats pinned as a known finding. The set algebra itself is indexmap's assumed contract.",
                 note="Hash containers cannot run under CBMC (P12); set operations, metadata refresh and comprehensions not decided.", ref="4 C14"),
     "C15": dict(cat="proof", tech="Kani on count fragments cut verbatim from the dispatch-arm macros + fill kernels on real nalgebra",
                 text="Element-count computation of the four range dispatch arms (fragment F, verbatim text, every kind) against the exact count over mathematical integers, loop-free over the full domain; fill kernels Range*Scalar::solve against out[i]==a+i*s (bounded length 4). Known defects pinned as known findings.",
                 note="Trusted: Kani/CBMC; the arm's allocation and storage-type match are read off the macro text. 64-bit stepped ranges bounded to |x|<2^52; 128-bit stepped ranges and float stepped ranges not covered.", ref="4 C15"),
-    "C20": dict(cat="proof", tech="Verus on code_fence_delimiter and on the active-set protocol fragment of expand_mechdown_includes_recursive",
+    "C19": dict(cat="proof", tech="Kani kernel harnesses with re-evaluation assertions + Verus on the loop nest of Interpreter::step",
+                text="Partial: for every elementwise operator kernel (one 8-bit kind, four representative form pairs; thorough: more kinds and all forms) solve() leaves its inputs unchanged and a second solve() changes nothing; Interpreter::step(0, n) solves plan[0..len) in order n times and n single steps equal one n-step (proved on a transcription of the loop nest guarded by an anchor check). That evaluators build plans whose steps write fresh cells, and cross-process determinism, are not decided.",
+                note="Trusted: Kani/CBMC, Verus/Z3. The per-kernel clauses of the access/convert/range/concat kernels are asserted in the C03/C11/C12/C15 harnesses.", ref="4 C19"),
+    "C20": dict(cat="proof", tech="Verus on code_fence_delimiter, is_code_fence_close and on the active-set protocol fragment of expand_mechdown_includes_recursive",
                 text="Partial: the fence-line classifier is proved for lines of any length; the cycle-detection protocol (path in active set => error; set restored on success so diamonds are allowed; the recursion runs with the path in the set) is proved on the statements that touch the set, with the file-reading middle replaced by its own contract. Textual-substitution equality, path resolution and termination are not decided.",
                 note="Assumed: modular recursion (the middle satisfies the function's contract), canonicalize identifies files.", ref="4 C20"),
 }
@@ -53,7 +53,7 @@ NA = {
     "C17": "state-machine transition runs: AST-walking evaluator over HashMap state; same reason as C16",
     "C18": "joins are one 180-line function over HashMap/HashSet/IndexMap with iterator closures: Verus cannot take it, hash containers with symbolic keys do not terminate under CBMC (P12)",
 }
-PENDING = {"C19": "check not yet built in this session (planned, DESIGN.md §4 C19)"}
+PENDING = {"C13": "literal spelling->value: float/scientific literals go through str::parse::<f64> and powf (std's contract / not modelled by either verifier) and the grammar side is parser code; the only functions within reach (binary/oct/dec/hex evaluators) run i64::from_str_radix over a String collected from symbolic chars, which exhausts CBMC (45 GB, no verdict in 300 s per harness, measured) — no obligation could be discharged, so nothing is claimed"}
 
 
 def main():
